@@ -243,8 +243,110 @@ func c18Oracle(c *fw.Ctx, w *vs.World, name string, prm c18Params, st *c18State)
 	}
 }
 
+// concurrent setter: a Read (silent peer) or Write (zero window) is blocked in
+// one goroutine while another sets the deadline of that direction.
+type c18ConcParams struct {
+	K   connCfg
+	Dir string // read | write
+	Set string // past | 1s | both-past (SetDeadline)
+}
+
+func (p c18ConcParams) name() string { return "conc-" + p.Dir + "-" + p.Set + "/" + p.K.String() }
+
+func c18ConcSetup(prm c18ConcParams) func(c *fw.Ctx, name string) explore.Setup {
+	return func(c *fw.Ctx, name string) explore.Setup {
+		return func(w *vs.World) func(bool) {
+			p := vpipe.New()
+			if prm.Dir == "write" {
+				p.Window = 8
+			}
+			var callErr error
+			var callDone, setDone bool
+			var t1, setAt, dl int64
+			w.GoHarness("main", true, func() {
+				conn := mkConn(p, prm.K)
+				nc := websocket.NetConn(vctx.Background(), conn, websocket.MessageBinary)
+				w.GoHarness("caller", true, func() {
+					if prm.Dir == "read" {
+						var b [8]byte
+						_, callErr = nc.Read(b[:])
+					} else {
+						_, callErr = nc.Write(fill(0xAB, 100))
+					}
+					t1 = w.Now
+					callDone = true
+				})
+				w.GoHarness("setter", true, func() {
+					d := -time.Second
+					if prm.Set == "1s" {
+						d = time.Second
+					}
+					t := vctx.Epoch.Add(time.Duration(w.Now) + d)
+					setAt = w.Now
+					dl = w.Now
+					if d > 0 {
+						dl = w.Now + int64(d)
+					}
+					switch {
+					case prm.Set == "both-past":
+						nc.SetDeadline(t)
+					case prm.Dir == "read":
+						nc.SetReadDeadline(t)
+					default:
+						nc.SetWriteDeadline(t)
+					}
+					setDone = true
+				})
+			})
+			return func(complete bool) {
+				if !complete {
+					return
+				}
+				role := prm.K.String()
+				if w.Panic != "" {
+					violate(c, w, name, "C18/panic/"+role, w.Panic)
+					return
+				}
+				c.OutcomeStr(fmt.Sprintf("%s|done=%v|err=%v|closed=%v", name, callDone, callErr != nil, p.Closed))
+				if !callDone || w.Deadlock || w.HorizonHit {
+					if setDone {
+						violate(c, w, name, "C18/call-outlives-deadline/blocked-"+prm.Dir+"-concurrent-set-"+prm.Set+"/"+role, fmt.Sprintf("a %s blocked on the peer was not interrupted by the %s deadline set at %v (deadline %v) from another goroutine", prm.Dir, prm.Dir, time.Duration(setAt), time.Duration(dl)))
+					}
+					return
+				}
+				if callErr == nil {
+					violate(c, w, name, "C18/blocked-call-succeeds/"+prm.Dir+"/"+role, "the call returned nil although the peer never answered")
+					return
+				}
+				if t1 > dl+int64(500*time.Millisecond) {
+					violate(c, w, name, "C18/call-outlives-deadline/blocked-"+prm.Dir+"-concurrent-set-"+prm.Set+"/"+role, fmt.Sprintf("the blocked %s returned at %v, deadline was %v", prm.Dir, time.Duration(t1), time.Duration(dl)))
+					return
+				}
+				// the deadline fired during (or at the start of) the call: either a deadline
+				// error with the connection open (deadline counted as passed before the call
+				// began), or the connection is closed
+				if !p.Closed && !isDeadlineErr(callErr) {
+					violate(c, w, name, "C18/active-deadline-leaves-connection-open/"+prm.Dir+"/"+role, fmt.Sprintf("the %s deadline fired during the blocked call, which failed with %q, but the connection was not closed", prm.Dir, callErr))
+				}
+			}
+		}
+	}
+}
+
 func c18Scenarios(tier string) []scenario {
 	var scs []scenario
+	for _, k := range []connCfg{{Client: false}, {Client: true}} {
+		for _, dir := range []string{"read", "write"} {
+			for _, set := range []string{"past", "1s", "both-past"} {
+				prm := c18ConcParams{K: k, Dir: dir, Set: set}
+				pc := explore.Config{P: 2, T: 1, Horizon: 60e9}
+				if tier == "thorough" {
+					pc = explore.Config{P: -1, T: 2, Horizon: 60e9}
+				}
+				scs = append(scs, scenario{Name: prm.name(), Cfg: pc, Setup: c18ConcSetup(prm), Group: "conc/" + k.String()})
+			}
+		}
+	}
 	cfg := explore.Config{P: 2, T: 1, E: 0, Horizon: 60e9}
 	depth := 3
 	if tier == "thorough" {
